@@ -717,10 +717,10 @@ impl<P: SizedPayload> St<P> {
         if sole {
             self.facts.makemut_inplace = true;
             if clones != 0 {
-                viol::report(PW, "W.spurious-clone", format!("{}: sole owner but Clone::clone ran {} times", how, clones));
+                viol::report(&["C08", "C03"], "W.spurious-clone", format!("{}: sole owner (the in-place branch must be taken) but Clone::clone ran {} times", how, clones));
             }
             if da != self.allocs[ai].data_addr || !eff.allocs.is_empty() {
-                viol::report(PW, "W.moved", format!("{}: sole owner but the handle now points to another allocation ({} new blocks)", how, eff.allocs.len()));
+                viol::report(&["C08", "C03"], "W.moved", format!("{}: sole owner but the handle now points to another allocation ({} new blocks)", how, eff.allocs.len()));
             }
             if !P::ZST {
                 self.allocs[ai].val = newv;
